@@ -15,7 +15,9 @@ RULE = ("case = (module class, speedgrade, rate, DDR4 fine-refresh mode) x a lis
         "plus clocks at which some datasheet ns value is an exact multiple of the period, +-1e-9 relative); each construction "
         "of the real SDRAMModule runs the post-condition: for every minimum timing X, cycles(X)*T >= ns(X) + T*(1-1/n) and "
         "cycles(X)*n >= ck(X) (tRC against tRP+tRAS), and cycles(tREFI)*T <= tREFI_ns (exact fractions, 1 ps tolerance); "
-        "SPD images: the same against an independent JEDEC decode of the SPD bytes; non-trivial = the contract was evaluated "
+        "SPD images: the same against an independent JEDEC decode of the SPD bytes; synthetic datasheets: classes generated "
+        "with every notation of a value (ns, (ck, None), (None, ns), (ck, ns), absent; timing objects or plain attributes) and "
+        "random magnitudes, built at random rates 1:1..1:8 and refresh modes; non-trivial = the contract was evaluated "
         "and at least one ceiling was within 5% of flipping; distinct = distinct (class, speedgrade, rate, result vector)")
 ASSUMPTIONS = [
     "datasheet values are those in the class tables of litedram/modules.py (the property's reference)",
@@ -163,7 +165,48 @@ def cases(tier, seed):
     spd_dir = os.path.join(os.environ.get("VERIF_REPO", "/repo"), "test", "spd_data")
     for fn in sorted(os.listdir(spd_dir)):
         out.append(dict(kind="spd", file=fn, nlog=nlog, seed="C16/%d/%s" % (seed, fn), name="spd-" + fn, cost=1))
+    # synthetic datasheets: every way a value can be written (ns, (ck, None), (None, ns), (ck, ns), absent), both class
+    # styles (timing objects / plain attributes), random magnitudes -- the library only samples a few dozen values
+    for k in range(60 if tier == "quick" else 600):
+        out.append(dict(kind="synthetic", nlog=40 if tier == "quick" else 80, seed="C16/%d/syn/%d" % (seed, k),
+                        name="synthetic-%04d" % k, cost=1))
     return out
+
+
+def synthetic_class(r):
+    from litedram import modules as M
+    memtype = r.choice(["SDR", "DDR", "LPDDR", "DDR2", "DDR3", "DDR4"])
+
+    def val(lo, hi, allow_none=False, force_pair=False):
+        ns = round(r.uniform(lo, hi), r.choice([0, 1, 2, 3]))
+        ck = r.randint(1, 12)
+        form = r.choice(["ns", "ck", "nsp", "both"] + (["none"] if allow_none else []))
+        if force_pair and form == "ns":
+            form = "nsp"
+        return {"ns": ns, "ck": (ck, None), "nsp": (None, ns), "both": (ck, ns), "none": None}[form]
+
+    refi = r.choice([64e6 / 8192, 64e6 / 4096, 32e6 / 8192, round(r.uniform(900, 16000), 2)])
+    rfc = lambda: val(40, 400)
+    if memtype == "DDR4":
+        tREFI = {"1x": refi, "2x": refi / 2, "4x": refi / 4}
+        tRFC = {"1x": rfc(), "2x": rfc(), "4x": rfc()}
+    else:
+        tREFI, tRFC = refi, rfc()
+    tech = dict(tREFI=tREFI, tWTR=val(1, 20), tCCD=val(1, 10, True), tRRD=val(1, 15, True), tZQCS=val(20, 120, True))
+    spd = dict(tRP=val(5, 30), tRCD=val(5, 30), tWR=val(5, 30), tRFC=tRFC, tFAW=val(10, 60, True), tRAS=val(20, 60, True))
+    if spd["tRAS"] is not None and not isinstance(spd["tRAS"], tuple) and isinstance(spd["tRP"], tuple):
+        spd["tRP"] = r.choice([spd["tRP"][1] or 12.5, spd["tRP"]]) if spd["tRP"][1] else 12.5   # tRP + tRAS is added by the library
+    # get() returns Timing tuples, which the library adds for tRC: any two forms are legal there
+    ns = dict(memtype=memtype, nbanks=r.choice([4, 8, 16]), nrows=r.choice([2048, 8192, 32768]), ncols=r.choice([512, 1024]))
+    style = r.choice(["objects", "attributes"])
+    if style == "objects":
+        ns["technology_timings"] = M._TechnologyTimings(**tech)
+        ns["speedgrade_timings"] = {"default": M._SpeedgradeTimings(**spd)}
+    else:
+        for k, v in list(tech.items()) + list(spd.items()):
+            if v is not None:
+                ns[k] = v
+    return type("Synthetic%s" % memtype, (M.SDRAMModule,), ns), style
 
 
 def run_case(case):
@@ -192,6 +235,22 @@ def run_case(case):
                 built += 1
                 if len(viol) < 40:
                     viol.append(dict(kind="unsafe-cycle-count", **e.witness))
+    elif case["kind"] == "synthetic":
+        cls, style = synthetic_class(r)
+        clocks = clock_list(cls, None, "1x" if cls.memtype == "DDR4" else None, case["nlog"], r)
+        e0, n0 = COUNTERS["evaluations"], COUNTERS["near_flip"]
+        rates = ["1:1", "1:2", "1:4", "1:8"]
+        frms = ["1x", "2x", "4x"] if cls.memtype == "DDR4" else [None]
+        for f in clocks:
+            rate, frm = r.choice(rates), r.choice(frms)
+            try:
+                cls(f, rate, **({"fine_refresh_mode": frm} if frm else {}))
+                built += 1
+                vectors.add(LAST.get("vec"))
+            except TimingContractBroken as e:
+                built += 1
+                if len(viol) < 40:
+                    viol.append(dict(kind="unsafe-cycle-count", style=style, **e.witness))
     else:
         spd_dir = os.path.join(os.environ.get("VERIF_REPO", "/repo"), "test", "spd_data")
         data = load_spd_csv(os.path.join(spd_dir, case["file"]))
